@@ -14,13 +14,13 @@ CHECKS = {
     "C13": dict(
         engine="nodesim",
         technique="deterministic simulation: seeded schedules + fault injection over 2-4 real litep2p nodes on an in-memory network; request ledger oracle",
-        text="Seeded search over schedules, fault plans and request workloads with complete litep2p nodes (real TransportManager, TCP transport, Noise, yamux, request-response protocol) on a simulated network and clock. Oracle: ledger keyed by request id (at most one terminal event, exactly one by the horizon unless cancelled, response bytes equal what the responder supplied for that request, each request delivered to the responder at most once and unaltered, inbound bound respected, no unknown ids, no panic). Exploration is the right level: the property quantifies over interleavings and fault timings of a multi-task system which cannot be enumerated.",
+        text="Seeded search over schedules, fault plans and request workloads with complete litep2p nodes (real TransportManager, TCP transport, Noise, yamux, request-response protocol) on a simulated network and clock. Oracle: ledger keyed by request id (at most one terminal event, exactly one by the horizon unless cancelled, response bytes equal what the responder supplied for that request, each request delivered to the responder at most once and unaltered, inbound bound respected, no unknown ids, no panic). Exploration is the right level: the property quantifies over interleavings and fault timings of a multi-task system which cannot be enumerated. Fault kinds: connection reset / half-close at an instant or at a byte offset, single-bit corruption in flight, partition (stalled delivery) and heal, refused / black-holed / slow connects, node kill (reset or silent vanish), crash + restart with the same identity and no memory, process stall (no task of a node is polled for 50 ms-40 s); a second pass runs the same cases against litep2p compiled with debug assertions (its debug_assert!-guarded states become panics = violations). In a third of the runs one extra peer registers the protocol name as a raw user protocol and misbehaves on the wire after a request arrived (silent, close, oversize / truncated / doubled / zero-length / never-terminated-varint response); its responses are not compared, only bounded by the configured maximum.",
         ref="DESIGN.md §5 C13",
     ),
 }
 
 
-CONN_TEXT = ("Seeded search over schedules, fault plans and application/protocol workloads with 2-4 complete litep2p nodes (real TransportManager, peer state machine, TCP transport, Noise, yamux, ProtocolSet, TransportService) carrying two probe user protocols each, on a simulated network and clock; every observable event goes into one totally ordered history that the oracle examines at the horizon, after a fault-free final phase which re-dials every disconnected pair. ")
+CONN_TEXT = ("Seeded search over schedules, fault plans and application/protocol workloads with 2-4 complete litep2p nodes (real TransportManager, peer state machine, TCP transport, Noise, yamux, ProtocolSet, TransportService) carrying two probe user protocols each, on a simulated network and clock; every observable event goes into one totally ordered history that the oracle examines at the horizon, after a fault-free final phase which re-dials every disconnected pair.  Fault kinds: connection reset / half-close at an instant or at a byte offset, single-bit corruption in flight, partition (stalled delivery) and heal, refused / black-holed / slow connects, node kill (reset or silent vanish), crash + restart with the same identity and no memory, process stall (no task of a node is polled for 50 ms-40 s); a second pass runs the same cases against litep2p compiled with debug assertions (its debug_assert!-guarded states become panics = violations).")
 CHECKS.update({
     "C05": dict(engine="nodesim", technique="deterministic simulation: seeded schedules + fault injection over whole litep2p nodes; dial-outcome ledger oracle + final re-dial phase",
         text=CONN_TEXT + "C05 oracle: every accepted dial (by peer id, by well-formed or adversarial address) is followed by a connection with that peer or a failure naming a dialed address, never silence; dial outcomes never outnumber accepted dial calls (no duplicate/both); failures only name addresses that were dialed; malformed addresses are refused or fail, never panic or wedge; in the final phase every disconnected pair can be dialed again and the dial is attempted.", ref="DESIGN.md §5 C05"),
@@ -32,7 +32,7 @@ CHECKS.update({
         text=CONN_TEXT + "C08 oracle per protocol and peer: established/closed strictly alternate starting with established (also with two overlapping connections from simultaneous dials); substream events only while connected; open_substream returns Ok only while connected; outbound substream ids are never reused across the protocols of a node; every accepted open is answered at most once with the same id, and exactly once unless a connection to that peer ended, the connection was force-closed or the protocol exited.", ref="DESIGN.md §5 C08"),
 })
 
-NOTIF_TEXT = ("Seeded search over schedules, fault plans and user workloads with 2-3 complete litep2p nodes running a notification protocol (real NotificationProtocol, HandshakeService, per-stream Connection tasks, NotificationHandle/Sink, TransportService, TCP transport, Noise, yamux) on a simulated network and clock; every user command and every user-visible event goes into one totally ordered history examined at the horizon; a fault-free final phase resets the users and opens a canary stream between every pair. ")
+NOTIF_TEXT = ("Seeded search over schedules, fault plans and user workloads with 2-3 complete litep2p nodes running a notification protocol (real NotificationProtocol, HandshakeService, per-stream Connection tasks, NotificationHandle/Sink, TransportService, TCP transport, Noise, yamux) on a simulated network and clock; every user command and every user-visible event goes into one totally ordered history examined at the horizon; a fault-free final phase resets the users and opens a canary stream between every pair.  Fault kinds: connection reset / half-close at an instant or at a byte offset, single-bit corruption in flight, partition (stalled delivery) and heal, refused / black-holed / slow connects, node kill (reset or silent vanish), crash + restart with the same identity and no memory, process stall (no task of a node is polled for 50 ms-40 s); a second pass runs the same cases against litep2p compiled with debug assertions (its debug_assert!-guarded states become panics = violations).")
 CHECKS.update({
     "C11": dict(engine="nodesim", technique="deterministic simulation: seeded schedules + fault injection over whole litep2p nodes; per-peer event-grammar and response oracle, canary phase",
         text=NOTIF_TEXT + "C11 oracle per (node, peer): opened/closed strictly alternate starting with opened; notifications only while open; no open-failure while open; an inbound stream opens only after the user accepted a validation, an outbound one only after a request or acceptance; no unsolicited open-failure; an open request issued while nothing is open, pending, under validation or being negotiated by the remote gets an answer; an open stream is reported closed once every connection to the peer ended; after the reset every pair can still open a stream (the protocol neither panicked, poisoned a peer nor stopped serving).", ref="DESIGN.md §5 C11"),
@@ -51,7 +51,7 @@ CHECKS.update({
 })
 
 CHECKS.update({
-    "C01": dict(engine="bytepipe", category="fault_enumeration", technique="deterministic simulation of the handshake with an active man in the middle and a rogue peer: systematic fault enumeration over every handshake byte + seeded schedules/fragmentation",
+    "C01": dict(engine="bytepipe", category="fault_enumeration", technique="deterministic simulation of the handshake with an active man in the middle and a rogue peer: systematic fault enumeration over every handshake byte + seeded schedules/fragmentation Fault kinds: connection reset / half-close at an instant or at a byte offset, single-bit corruption in flight, partition (stalled delivery) and heal, refused / black-holed / slow connects, node kill (reset or silent vanish), crash + restart with the same identity and no memory, process stall (no task of a node is polled for 50 ms-40 s); a second pass runs the same cases against litep2p compiled with debug assertions (its debug_assert!-guarded states become panics = violations). In a third of the runs one ghost is a live rogue peer that speaks the Kademlia protocol name and, after reading a request, stays silent, closes, or answers garbage / an empty frame / a well-formed message of the wrong type.",
         text="The real noise::handshake runs on both ends of a simulated carrier under the seeded scheduler. Fault enumeration: every byte offset of both handshake directions x {bit flips, overwrite, truncation} is injected by a man in the middle; a rogue peer written directly against snow completes a valid Noise XX session with every forged identity payload of a catalogue (missing key/signature, signature by another identity, signature bound to another static key, missing domain prefix, wrong lengths, unknown key type, ...) in both roles; seeded runs add key pairs, fragmentation down to single bytes, short writes, Pending and schedules. Oracle: a secured connection for peer P is reported only if nothing was altered in flight and the payload is a valid proof for P over this session's static key; every altered or forged case ends in an error within the time-out, never a hang or panic. The dialed-peer comparison is exercised end-to-end by C05's wrong_peer address shape.", ref="DESIGN.md §5 C01"),
     "C02": dict(engine="bytepipe", technique="deterministic simulation: real Noise sockets over a simulated carrier with seeded fragmentation/back-pressure and a frame-level attacker; byte-FIFO reference model",
         text="Two endpoints perform the real Noise handshake over a simulated carrier and then exchange byte streams in both directions through the real NoiseSocket (split into reader and writer tasks under the seeded scheduler). Write sizes cover 1 byte to several maximum frames incl. 65519/65520/65521, reader buffers 1 byte to 400 kB, read-ahead 1-5 and write-buffer 1-3, carrier chunking down to one byte, short writes, Pending and a bounded window. Reference model: a byte FIFO (position-indexed pseudo-random stream). Honest runs: bytes read = bytes written, no error, no stall. Attacker runs (one ciphertext frame flipped, truncated, replayed, dropped or swapped): no byte that differs from the honest stream is ever delivered and nothing from the attacked frame on is delivered.", ref="DESIGN.md §5 C02"),
